@@ -263,8 +263,9 @@ class C07Gen(hist.HistGen):
     # -- pipelines --------------------------------------------------------------------------
     def stage(self):
         r = self.r
-        k = r.choice(['$match', '$project', '$project', '$addFields', '$addFields', '$unwind',
-                      '$group', '$sort', '$limit', '$skip'])
+        k = r.choice(['$match', '$project', '$project', '$addFields', '$addFields', '$addFields',
+                      '$unwind', '$group', '$sort', '$limit', '$skip', '$unwind', '$group',
+                      '$match', '$project', r.choice(['$lookup', '$graphLookup'])])
         ref = lambda: '$' + r.choice(KEYS + ['a.x', 'b.y', '_id'])   # noqa: E731
         if k == '$match':
             return {k: self.filt()}
@@ -283,11 +284,18 @@ class C07Gen(hist.HistGen):
             return {k: p}
         if k == '$addFields':
             p = {}
-            for f in r.sample(KEYS + ['q', 'b.z'], r.choice([1, 2])):
+            for f in r.sample(KEYS + ['q', 'b.z', 'a.z', 'a.y.w', 'c.z', 'a.z'], r.choice([1, 2])):
                 y = r.random()
                 p[f] = ref() if y < 0.5 else ({'$literal': self.cont(2)} if y < 0.8
                                               else [self.scalar(), self.scalar()])
             return {k: p}
+        if k == '$lookup':
+            return {k: {'from': 'c', 'localField': r.choice(KEYS + ['a.x', '_id']),
+                        'foreignField': r.choice(KEYS + ['a.x', '_id']), 'as': r.choice(['j', 'a'])}}
+        if k == '$graphLookup':
+            return {k: {'from': 'c', 'startWith': ref(), 'connectFromField': r.choice(KEYS + ['a.x']),
+                        'connectToField': r.choice(['_id', 'a.x', 'b']), 'as': 'g',
+                        'maxDepth': r.choice([0, 1])}}
         if k == '$unwind':
             if r.random() < 0.5:
                 return {k: '$' + r.choice(KEYS)}
